@@ -1,5 +1,6 @@
 (* Prop_C10.v — C10: poisoning tracks panics during holds, and only those. *)
-From HL Require Import Base Model Shape Algo Api OpsLemmas Lemmas ShapeLemmas ApiLemmas QuietLemmas Check Monitors Pf_Calls Pf_Hist Pf_Hist10.
+From HL Require Import Base Model Shape Algo Api Conc OpsLemmas Lemmas ShapeLemmas ApiLemmas QuietLemmas Check Monitors Pf_Calls Pf_Hist Pf_Hist10.
+From HL Require WpMain.
 
 (* executions without panics never poison: ANY API call (other than clear_poison) that returns normally, in
    ANY world, leaves every Poisonable flag as it was *)
@@ -107,8 +108,19 @@ Example C10_every_history_nonvacuous :
     [RB true; ROk; RPanicked; RB true; RPoisoned; ROk; RB true; RPanicked; RB true; RPanicked; RB true; ROk; RB false; ROk].
 Proof. vm_compute. repeat split. Qed.
 
+
+(* interleaved model, every schedule (with or without pauses after releases and at call boundaries): plain Mutex and RwLock
+   are never made unusable by panics in user code — no kill flag is ever set, whatever panics with live guards or inside
+   closures the threads' programs contain *)
+Theorem C10_every_schedule_never_killed :
+  forall yr pb b sched l, WpMain.wfB b = true ->
+  let sc := bs_sc b in
+  w_kill (b_w (fst (run_sched_g false yr pb (bs_wp b) (sc_env sc) (sc_nlocks sc) (binit b) sched))) l = false.
+Proof. exact WpMain.every_schedule_never_killed. Qed.
+
 Print Assumptions C10_no_panic_no_poison.
 Print Assumptions C10_guard_panic_poisons.
 Print Assumptions C10_own_scoped_panic_poisons.
 Print Assumptions C10_refuted_scoped_collection.
 Print Assumptions C10_every_history_relaxed.
+Print Assumptions C10_every_schedule_never_killed.
